@@ -154,6 +154,13 @@ func GetFingerprint(q string) string {
 					fmt.Println("Quote literal")
 				}
 				escape = false
+			} else if qi+1 < len(q) && rune(q[qi+1]) == quoteChar {
+				// 'it''s': a doubled quote char is a quote char of the value, not
+				// its end.  Skip the second one like an escaped quote char.
+				if Debug {
+					fmt.Println("Doubled quote")
+				}
+				escape = true
 			} else {
 				// 'foo' -> ?
 				// "foo" -> ?
